@@ -158,6 +158,18 @@ def _call(ctx, desc, what, f, *a):
                     ctx.violation("argument_modified_in_place", desc, {"call": what, "argument_index": i,
                                                                         "max_abs_change": float(np.max(np.abs(x - b))) if x.shape == b.shape else "shape"},
                                   key=f"arg_modified:{what}")
+        if isinstance(out, np.ndarray) and out.ndim >= 1 and out.flags.writeable:
+            # the caller overwrites the array it was handed; neither its arguments nor any later answer may notice
+            keep = out.copy()
+            out[...] = 7
+            ctx.count("results:overwritten_by_caller")
+            for i, (x, b) in enumerate(zip(a, before)):
+                if b is not None and (x.shape != b.shape or not np.allclose(x, b, atol=1e-12, rtol=0)):
+                    # not a violation: a result that is a view of its argument (partial_trace keeping every qubit: einsum
+                    # returns a view) is not excluded by the property; counted, and the argument is restored
+                    ctx.count("results:view_of_argument")
+                    x[...] = b
+            out = keep
         return True, out
     except Exception as e:  # any exception on valid density matrices refutes the property
         ctx.violation("exception:" + what, desc, {"call": what, "exception": f"{type(e).__name__}: {e}"[:300]},
